@@ -20,6 +20,7 @@ import (
 	"github.com/scionproto/scion/private/topology"
 	"github.com/scionproto/scion/private/underlay/conn"
 	"github.com/scionproto/scion/router"
+	"github.com/scionproto/scion/router/bfd"
 	"github.com/scionproto/scion/router/control"
 	_ "github.com/scionproto/scion/router/underlayproviders/udpip"
 
@@ -603,3 +604,5 @@ func (k *forgeCase) addrLen() int {
 
 func (k *forgeCase) hopOffsetFor(h int) int  { return 12 + 16 + k.addrLen() + 4 + 8*len(k.lens) + 12*h }
 func (k *forgeCase) infoOffsetFor(s int) int { return 12 + 16 + k.addrLen() + 4 + 8*s }
+
+type bfdSession = bfd.Session
